@@ -2,3 +2,4 @@ pub mod lex;
 pub mod parse;
 pub mod astwalk;
 pub mod ser;
+pub mod schema;
